@@ -455,6 +455,56 @@ def run_aggbig(unit, ctx):
         cb = {"kind": "aggbig", "n": n, "runlen": L, "seed": seed, "scheme": list(scheme)}
         ctx.case(False, n=0, sample=cb)
         check_agg_case(ctx, dutils, runs, scheme, vals, groups, cb)
+    if n <= 5000:
+        check_layouts(ctx, dutils, runs, vals, {"kind": "aggbig", "n": n, "runlen": L, "seed": seed, "scheme": [199501, 1]})
+
+
+def layout_variants(idx, x):
+    """same values, other dtypes / memory layouts / containers (the alphabet is exact in float32)"""
+    import pandas as pd
+    out = [("float32", idx, x.astype(np.float32)),
+           ("index-int32", idx.astype(np.int32), x),
+           ("index-float64", idx.astype(np.float64), x),
+           ("index-list", idx.tolist(), x)]
+    big = np.full(2 * len(x) + 1, 7.25)
+    big[1::2] = x
+    out.append(("strided", idx, big[1::2]))
+    bigi = np.full(2 * len(idx) + 1, -5, dtype=np.int64)
+    bigi[1::2] = idx
+    out.append(("index-strided", bigi[1::2], x))
+    ro = x.copy()
+    ro.setflags(write=False)
+    out.append(("readonly", idx, ro))
+    out.append(("series", pd.Series(idx), pd.Series(x, index=np.arange(len(x))[::-1])))
+    return out
+
+
+def check_layouts(ctx, dutils, runs, vals, case_base):
+    idx = index_of(runs, (199501, 1))
+    x = np.array(vals, dtype=np.float64)
+    n = len(vals)
+    for oper, maxnan in ((0, n + 1), (1, 1), (2, n + 1), (3, 2)):
+        try:
+            ref = dutils.aggregate(idx, x, oper, maxnan)
+            reff = dutils.flathomogen(idx, x, maxnan)
+        except Exception:
+            return
+        for lname, li, lx in layout_variants(idx, x):
+            for fname, refv in (("aggregate", ref), ("flathomogen", reff)):
+                case = dict(case_base, layout=lname, oper=oper, maxnan=maxnan, func=fname)
+                try:
+                    out = dutils.aggregate(li, lx, oper, maxnan) if fname == "aggregate" else dutils.flathomogen(li, lx, maxnan)
+                except Exception as e:
+                    ctx.case(True, outcome="raise")
+                    ctx.count("layout.rejected.%s.%s" % (lname, type(e).__name__))
+                    continue
+                ctx.case(True, outcome=np.asarray(out).tobytes())
+                ctx.count("layout.accepted." + lname)
+                o = np.asarray(out, dtype=np.float64)
+                if o.shape != refv.shape or not np.array_equal(o, refv, equal_nan=True):
+                    ctx.violation("%s:layout=%s" % (fname, lname), case,
+                                  "%s with the same values given as %s differs from the float64 C-contiguous call: %s vs %s" % (
+                                      fname, lname, o[:8].tolist(), refv[:8].tolist()))
 
 
 def run_unit(unit, ctx):
